@@ -42,6 +42,24 @@ fn shape_space(ctx: &Ctx, rows: usize, cols: usize) {
                     products_check(&s, rows, cols, &m, true)
                 });
             }
+            // raw compressed-column arrays with rows stored in descending order inside each column
+            judge(acc, mask, || format!("{}x{} cells={:?} from_vecs descending", rows, cols, cells), || {
+                let mut sorted = cells.clone();
+                sorted.sort_by_key(|c| (c.1, usize::MAX - c.0));
+                let mut m = SM::new();
+                let (mut val, mut ri, mut cs) = (vec![], vec![], vec![0usize; cols + 1]);
+                for &(i, j) in &sorted {
+                    m.insert((i, j), cell_value(i, j, cols));
+                    val.push(cell_value(i, j, cols));
+                    ri.push(i);
+                    cs[j + 1] += 1;
+                }
+                for j in 0..cols {
+                    cs[j + 1] += cs[j];
+                }
+                let s = Sparse::from_vecs(rows, cols, val, ri, cs);
+                products_check(&s, rows, cols, &m, false)
+            });
         },
     );
 }
